@@ -3,6 +3,7 @@ package c10
 import (
 	"bytes"
 	"fmt"
+	"regexp"
 	"strings"
 	"sync"
 	"testing"
@@ -37,7 +38,7 @@ type histCase struct {
 
 var boolOpts = []string{"call_tree", "relative_percentages", "mean", "drop_negative", "trim", "noinlines", "showcolumns", "compact_labels"}
 var radio = map[string]string{"cum": "sort", "flat": "sort", "functions": "granularity", "filefunctions": "granularity", "files": "granularity", "lines": "granularity", "addresses": "granularity"}
-var cmds = []string{"top", "top", "tree", "peek", "traces", "tags", "dot", "callgrind", "raw", "text", "comments", "svg", "png"}
+var cmds = []string{"top", "top", "tree", "peek", "traces", "tags", "dot", "callgrind", "callgrind", "raw", "text", "comments", "svg", "png", "proto", "topproto"}
 
 func genRegexWord(t *rapid.T, p *gen.Prof, label string) string {
 	var pool []string
@@ -98,9 +99,11 @@ func genCase(t *rapid.T) *histCase {
 			continue
 		}
 		s := Step{Name: rapid.SampledFrom(cmds).Draw(t, "cmd"), Redir: rapid.SampledFrom([]int{0, 1, 1, 2, 3}).Draw(t, "redir")}
-		if (s.Name == "callgrind" || s.Name == "svg" || s.Name == "png") && s.Redir == 0 {
-			s.Redir = 1 // binary formats go to a temp file when not redirected
+		if (s.Name == "svg" || s.Name == "png") && s.Redir == 0 {
+			s.Redir = 1 // needs Graphviz; fails either way
 		}
+		// callgrind / proto / topproto without a redirection go to a temporary file announced on the
+		// message stream ("Generating report in ..."), not to the terminal
 		if s.Name == "peek" {
 			s.Args = append(s.Args, genRegexWord(t, p, "peekre"))
 		}
@@ -172,8 +175,64 @@ func runSession(p *profile.Profile, lines []string) sessOut {
 	return out
 }
 
+// The reference sessions run in the same process as the history, so state that pprof keeps in process
+// globals (command table, option table) would contaminate both sides alike. A fixed canary session on a
+// fixed profile is therefore recorded when the process is still pristine and repeated after every case:
+// whatever a history leaves behind in the process shows up as a changed canary.
+var canaryOnce sync.Once
+var canaryWant string
+
+func canaryProfile() *profile.Profile {
+	f := &profile.Function{ID: 1, Name: "main", SystemName: "main", Filename: "main.go"}
+	g := &profile.Function{ID: 2, Name: "work", SystemName: "work", Filename: "work.go"}
+	m := &profile.Mapping{ID: 1, Start: 0x400000, Limit: 0x500000, File: "/bin/app", HasFunctions: true}
+	l1 := &profile.Location{ID: 1, Mapping: m, Address: 0x400100, Line: []profile.Line{{Function: f, Line: 3}}}
+	l2 := &profile.Location{ID: 2, Mapping: m, Address: 0x400200, Line: []profile.Line{{Function: g, Line: 7}}}
+	return &profile.Profile{SampleType: []*profile.ValueType{{Type: "samples", Unit: "count"}}, PeriodType: &profile.ValueType{Type: "cpu", Unit: "nanoseconds"}, Period: 1,
+		Mapping: []*profile.Mapping{m}, Function: []*profile.Function{f, g}, Location: []*profile.Location{l1, l2},
+		Sample: []*profile.Sample{{Location: []*profile.Location{l2, l1}, Value: []int64{3}, Label: map[string][]string{"k": {"v"}}}, {Location: []*profile.Location{l1}, Value: []int64{2}}}}
+}
+
+func runCanary() string {
+	s := runSession(canaryProfile(), []string{"top", "callgrind", "proto", "topproto", "tree", "peek work", "tags", "traces", "dot >c1", "callgrind >c2", "raw >c3", "list work", "top 1 -cum"})
+	var b strings.Builder
+	b.WriteString("announcements:\n" + announcements(s.res) + "\nstdout:\n" + s.stdout + "\nfiles:\n")
+	for _, n := range []string{"c1", "c2", "c3"} {
+		b.WriteString(n + ":\n" + s.files[n] + "\n")
+	}
+	if s.res.Panic != "" {
+		b.WriteString("panic: " + s.res.Panic)
+	}
+	return b.String()
+}
+
+func canaryCheck(lines []string) []string {
+	if got := runCanary(); got != canaryWant {
+		return []string{fmt.Sprintf("the session %q (or the fixed canary session itself, which also runs redirected and un-redirected commands) left state behind in the process: the fixed session (top, callgrind, proto, topproto, tree, ... on a fixed profile) no longer behaves as it did in the pristine process:\n%s", lines, firstDiffLines(canaryWant, got))}
+	}
+	return nil
+}
+
+func firstDiffLines(a, b string) string {
+	la, lb := strings.Split(a, "\n"), strings.Split(b, "\n")
+	for i := 0; i < len(la) || i < len(lb); i++ {
+		var x, y string
+		if i < len(la) {
+			x = la[i]
+		}
+		if i < len(lb) {
+			y = lb[i]
+		}
+		if x != y {
+			return fmt.Sprintf("line %d:\n   before %.300q\n   after  %.300q", i, x, y)
+		}
+	}
+	return "(equal)"
+}
+
 func check(c *histCase, o *vk.Obs) []string {
 	var e vk.Errs
+	canaryOnce.Do(func() { canaryWant = runCanary() })
 	p := c.P.Build().Copy()
 	var lines []string
 	for i, s := range c.Steps {
@@ -191,6 +250,7 @@ func check(c *histCase, o *vk.Obs) []string {
 	// radio choices assign their group)
 	var assigns []string
 	var wantStdout strings.Builder
+	var wantAnn []string
 	mutating := false
 	nontrivial := false
 	for i, s := range c.Steps {
@@ -214,6 +274,9 @@ func check(c *histCase, o *vk.Obs) []string {
 		if mutating && i > 0 {
 			nontrivial = true
 		}
+		if a := announcements(fresh.res); a != "" {
+			wantAnn = append(wantAnn, a)
+		}
 		name := fmt.Sprintf("out%d", i)
 		o.LabelIf(s.Redir == 3 || s.Name == "svg" || s.Name == "png", "failing-command")
 		if s.Redir == 3 {
@@ -229,17 +292,25 @@ func check(c *histCase, o *vk.Obs) []string {
 			wantStdout.WriteString(fresh.stdout)
 		}
 	}
+	// where the reports went: the "Generating report in <file>" announcements (temporary file names are numbered
+	// by what already exists in the directory, so the number is masked)
+	if a, b := announcements(full.res), strings.Join(wantAnn, "\n"); a != b {
+		e.Addf("where the reports are written depends on the history (lines %q):\n--- fresh sessions, concatenated\n%s\n--- one session\n%s", lines, b, a)
+	}
 	if full.stdout != wantStdout.String() {
 		e.Addf("what the un-redirected commands print depends on the history (lines %q):\n--- fresh sessions, concatenated\n%.700s\n--- one session\n%.700s", lines, wantStdout.String(), full.stdout)
 	}
 	o.NonTrivial = nontrivial
 	o.LabelIf(mutating, "mutating-report-first")
+	for _, m := range canaryCheck(lines) {
+		e.Addf("%s", m)
+	}
 	return e
 }
 
 func TestPropHistory(t *testing.T) {
 	vk.Main(t, vk.Spec[histCase]{ID: "C10", Facet: "history", Quick: 1500, Thorough: 8000, Gen: genCase, Check: check, Journal: true, CaseTimeout: 120 * time.Second,
-		Rule: "histories of 3..10 interactive lines over one generated profile: option assignments (name=value, bare bool, bare or assigned radio choice, filters built from the profile's own names, tag options, numeric options, sample_index) interleaved with report commands carrying their own arguments (focus/ignore words, counts, -cum, redirection in both spellings, or stdout); oracle: history independence - every command's output equals the output of a fresh session that replays only the option assignments in effect and then that command (files byte for byte, stdout as the in-order concatenation); non-trivial = a mutating report or assignment (filters, granularity, tagroot, noinlines, command arguments) precedes a later command"})
+		Rule: "histories of 3..10 interactive lines over one generated profile: option assignments (name=value, bare bool, bare or assigned radio choice, filters built from the profile's own names, tag options, numeric options, sample_index) interleaved with report commands carrying their own arguments (focus/ignore words, counts, -cum, redirection in both spellings, or stdout); oracle: history independence - every command's output equals the output of a fresh session that replays only the option assignments in effect and then that command (files byte for byte, stdout as the in-order concatenation); plus a fixed canary session recorded in the pristine process and repeated after every history (state left behind in process globals); non-trivial = a mutating report or assignment (filters, granularity, tagroot, noinlines, command arguments) precedes a later command"})
 }
 
 // ---- facet web: responses depend only on the request ----
@@ -414,3 +485,18 @@ func TestPropWeb(t *testing.T) {
 }
 
 var _ = bytes.Equal
+
+var tmpNum = regexp.MustCompile(`profile\d+\.`)
+
+// announcements lists the "Generating report in ..." messages of a session, without the one of the
+// reference sessions' leading "comments >flush" and with temporary file numbers masked.
+func announcements(res *pp.Res) string {
+	_, errs := res.UI.Snapshot()
+	var out []string
+	for _, m := range errs {
+		if strings.HasPrefix(m, "Generating report in") && !strings.HasSuffix(strings.TrimSpace(m), " flush") {
+			out = append(out, tmpNum.ReplaceAllString(strings.TrimSpace(m), "profileN."))
+		}
+	}
+	return strings.Join(out, "\n")
+}
